@@ -279,6 +279,15 @@ func RunCheck(id, tier, repo string, seed int, updateBaseline, quiet, writeEvide
 	}
 	genStart := time.Now()
 	for _, n := range names {
+		eng.CurProp = id
+		if eng.NotAssumed == nil {
+			eng.NotAssumed = map[string]bool{}
+			for _, f := range loadFindings(filepath.Join(VerifDir, "known_findings.txt")) {
+				if f.Kind == "finding" {
+					eng.NotAssumed[f.Obligation] = true
+				}
+			}
+		}
 		eng.ForceSafety = cfg.Safety || anyMatch(cfg.SafetyFunctions, n) || devSafety != nil && anyMatch(devSafety, n)
 		units = append(units, eng.GenUnit(eng.Funcs[n]))
 		eng.ForceSafety = false
@@ -949,8 +958,8 @@ func buildReplay(eng *Engine, id string, r ObResult, regression bool, outDir, re
 			rf.Model = parseModel(r.Res.Model, part.Witness)
 		}
 	}
-	if r.Res.Status == "sat" {
-		runReplayTemplate(rf)
-	}
+	// a counterexample model is replayed through the function's template; without a model (timeout / unknown) the template
+	// is still run: history templates drive a fixed scenario and need no model (one that does simply does not reproduce)
+	runReplayTemplate(rf)
 	return rf
 }
